@@ -34,6 +34,9 @@ def run(ctx):
     # digit runs beyond CPython's 4300-digit limit for int(str): the comparison itself has no such limit
     big = ['0' * 4301 + '7', '9' * 4301, '7', 'a' + '5' * 4301 + 'b']
     cpairs += [(a, b) for a in big for b in big]
+    # digit runs around every usual fixed width (19, 20, 32, 64, 128, 256 digits): one digit longer but numerically next
+    wide = [x for n in (18, 19, 20, 31, 32, 33, 63, 64, 65, 127, 128, 129, 255, 256, 257) for x in ('9' * n, '1' + '0' * n, '0' * 3 + '9' * n)]
+    cpairs += [(a, b) for a in wide for b in wide]
     allc = matrix + spairs + cpairs
     bad = ctx.compare('corr:compare_strings', [('compare_strings', [a, b]) for a, b in allc + odd], impl)
 
